@@ -24,7 +24,8 @@ func Clone[T any](v T) T {
 // masks module/namespace there and asserts them separately.
 type AugNote struct {
 	Path   string // canonical schema path of the introduced node, e.g. /top/c/leafname
-	Module string // augmenting module
+	Module string // augmenting module (for an augment written in a submodule: the module it belongs to)
+	File   string // the module or submodule whose text holds the augment
 }
 
 type inliner struct {
@@ -276,8 +277,12 @@ func Inline(mods []*Mod) ([]*Mod, []AugNote, error) {
 					markNsMod([]*Node{c}, m.Name)
 				}
 				t.Kids = append(t.Kids, c)
-				if tm != m && !(m.BelongsTo != "" && tm.Name == m.BelongsTo) {
-					in.notes = append(in.notes, AugNote{Path: "/" + strings.Join(names, "/") + "/" + c.Name, Module: m.Name})
+				if tm != m {
+					owner := m.Name
+					if m.BelongsTo != "" {
+						owner = m.BelongsTo
+					}
+					in.notes = append(in.notes, AugNote{Path: "/" + strings.Join(names, "/") + "/" + c.Name, Module: owner, File: m.Name})
 				}
 			}
 		}
